@@ -307,7 +307,7 @@ func runC08(sc *c08scenario) c08obs {
 	var probe *net.UnixConn
 	var network, addr string
 	var fdAdjust atomic.Int64 // sockets of the baseline that the scenario itself closes during the call (negative)
-	if sc.peer == "vanish" {
+	if sc.peer == "vanish" || sc.peer == "deaf" {
 		dir, err := os.MkdirTemp("", "vh-c08-")
 		if err != nil {
 			obs.class = "HARNESS-tmpdir"
@@ -329,7 +329,16 @@ func runC08(sc *c08scenario) c08obs {
 		}
 		defer probe.Close()
 		network, addr = "unixgram", path
-		c08Go(func() { log.vanishReader(ul, path, &fdAdjust) })
+		if sc.peer == "deaf" {
+			// the peer is there (the dial succeeds) but has shut down its receiving side: already the FIRST
+			// write fails, and nobody ever sees a datagram
+			ul.CloseRead()
+			log.mu.Lock()
+			log.vanished = true
+			log.mu.Unlock()
+		} else {
+			c08Go(func() { log.vanishReader(ul, path, &fdAdjust) })
+		}
 	} else {
 		l, err := net.ListenUDP("udp4", &net.UDPAddr{IP: net.IPv4(127, 0, 0, 1)})
 		if err != nil {
@@ -446,11 +455,11 @@ func runC08(sc *c08scenario) c08obs {
 			})
 		}
 	}
-	if sc.cancel == "at" && (peer != nil || sc.peer == "vanish") {
+	if sc.cancel == "at" && (peer != nil || sc.peer == "vanish" || sc.peer == "deaf") {
 		c08Go(func() {
 			// "after the peer received its j-th datagram"; the vanishing peer receives one, and is gone by then
 			pred := func() bool { return len(log.dgrams) >= sc.j }
-			if sc.peer == "vanish" {
+			if sc.peer == "vanish" || sc.peer == "deaf" {
 				pred = func() bool { return log.vanished }
 			}
 			if !log.waitFor(pred, stop, 6*time.Second) {
@@ -543,12 +552,15 @@ func runC08(sc *c08scenario) c08obs {
 		}
 	}
 
-	if sc.peer == "vanish" {
+	if sc.peer == "vanish" || sc.peer == "deaf" {
 		// what the peer took before it went away; nothing can be seen of the retransmissions (they fail)
 		log.mu.Lock()
 		vanished := log.vanished
 		if len(log.dgrams) > 0 {
 			obs.first = hx(log.dgrams[0])
+		}
+		if sc.peer == "deaf" && encErr == nil && obs.class != "ctx-canceled-before-dial" {
+			obs.first = "na" // whatever was written, nobody could see it
 		}
 		log.mu.Unlock()
 		// the premise of the scenario: writing to the vanished peer fails
@@ -690,7 +702,7 @@ func parseC08(args []string) *c08scenario {
 		if sc.variant < 0 || sc.variant >= len(c08Nodial) {
 			panic("bad peer")
 		}
-	case (sc.peer == "silent" || sc.peer == "closed" || sc.peer == "flood" || sc.peer == "vanish") && len(pf) == 1:
+	case (sc.peer == "silent" || sc.peer == "closed" || sc.peer == "flood" || sc.peer == "vanish" || sc.peer == "deaf") && len(pf) == 1:
 	default:
 		panic("bad peer")
 	}
@@ -736,8 +748,8 @@ func c08Ends(sc *c08scenario) bool {
 	switch sc.peer {
 	case "nodial":
 		return sc.cancel == "never" // no datagram ever reaches a peer: there is no "after the j-th"
-	case "vanish":
-		return sc.cancel == "at" && sc.j == 1 // the peer takes one datagram and is gone
+	case "vanish", "deaf":
+		return sc.cancel == "at" && sc.j == 1 // the peer takes one datagram and is gone (deaf: it is gone from the start)
 	case "closed":
 		return true
 	case "silent":
@@ -846,6 +858,8 @@ func genC08(g *Gen, tier string, emit func(op string, args ...string)) {
 	// datagram): only the context ends the call, and it must, several failed retransmissions later
 	for round := 0; round < rounds; round++ {
 		retry := g.Pick(5, 8, 12, 20)
+		one(retry, budgets[round%len(budgets)], "deaf", "at:1:"+itoa(3*retry+g.Pick(25, 40, 70)))
+		one(retry, budgets[(round+1)%len(budgets)], "deaf", "deadline:"+itoa(4*retry+g.Pick(40, 60, 90)))
 		one(retry, budgets[round%len(budgets)], "vanish", "at:1:"+itoa(3*retry+g.Pick(25, 40, 70)))
 		one(retry, budgets[(round+1)%len(budgets)], "vanish", "deadline:"+itoa(4*retry+g.Pick(40, 60, 90)))
 		if round%3 == 0 {
